@@ -38,7 +38,8 @@
                        reports `nothing yet' leaves the socket non-blocking: a later send that does not fit
                        into the socket buffers stops after a partial write (truncated frame on the wire) and
                        a later blocking read fails with WouldBlock instead of waiting (seeded mutant)
-     PongTruncated, ControlAsData, TypeFromLast, CloseNoReply, DropCloseTwice, NoneWhilePartial
+     PongTruncated, ControlAsData, TypeFromLast, CloseNoReply, DropCloseTwice, NoneWhilePartial,
+     LenForm126, LenForm65536 (the server's encoder picks the length form with <= instead of < at 126 / 65536)
                        (mutants = plausible bugs, see the actions) *)
 EXTENDS Naturals, Sequences, FiniteSets, TLC
 
@@ -124,7 +125,11 @@ PingPays(fs) ==
    fin, rsv (0..7), op (name, or "op<n>" for an unknown opcode, "raw" in the model for bytes that are
    no frame at all), mask bit, lf = length form used (7/16/64), len = announced length,
    pay = payload bytes actually read, trunc = the stream ended inside this frame. *)
-SrvFrame(op, pay) == [fin |-> TRUE, rsv |-> 0, op |-> op, mask |-> FALSE, lf |-> Form(PLen(pay)),
+\* length form chosen by the server's encoder (frame.rs From<Frame> for Vec<u8>: `< 126', `< 65536')
+SrvForm(n) == IF "LenForm126" \in Dev THEN (IF n <= 126 THEN 7 ELSE IF n < 65536 THEN 16 ELSE 64)
+              ELSE IF "LenForm65536" \in Dev THEN (IF n < 126 THEN 7 ELSE IF n <= 65536 THEN 16 ELSE 64)
+              ELSE Form(n)
+SrvFrame(op, pay) == [fin |-> TRUE, rsv |-> 0, op |-> op, mask |-> FALSE, lf |-> SrvForm(PLen(pay)),
                       len |-> PLen(pay), pay |-> pay, trunc |-> FALSE]
 RawBytes(pay)     == [fin |-> FALSE, rsv |-> 0, op |-> "raw", mask |-> FALSE, lf |-> 7,
                       len |-> PLen(pay), pay |-> pay, trunc |-> TRUE]
@@ -151,6 +156,8 @@ NumClose(out) == Len(SelectSeq(out, LAMBDA e : e.op = "close"))
 VARIABLES
   hs,        \* "init" | "open" (101 sent) | "refused" (not upgraded, connection closed)
   key,       \* key offered by the client (NoKey: none); "-" before the handshake
+  hsv,       \* spelling of the upgrade request: "canon" (the header names and tokens exactly as in RFC 6455 4.1's
+             \* example) or the name of a variant in other letter case; "-" before the handshake
   status,    \* status code of the handshake answer (0: connection closed without an answer)
   accept,    \* Sec-WebSocket-Accept of the answer
   mode,      \* "blocking" | "nonblocking": which receive call the handler uses (after its preamble)
@@ -180,7 +187,7 @@ VARIABLES
 
 cvars == <<wire, cuts, sentB, cst>>
 svars == <<ci, call, frags, last, srvOut, delivered, echoq, closed, failed, dropped, desync, sock, cm, polled, pushed>>
-hvars == <<hs, key, status, accept, mode, echo, pre, pushpay>>
+hvars == <<hs, key, hsv, status, accept, mode, echo, pre, pushpay>>
 vars  == <<hvars, cvars, arrB, svars>>
 
 Consumed  == SubSeq(wire, 1, ci)
@@ -190,7 +197,7 @@ StartB(i) == SumWire(SubSeq(wire, 1, i - 1))      \* offset of frame i in the st
 NB        == cm = "nonblocking" /\ frags = <<>>    \* message.rs `is_first_frame`: the next header read does not block
 
 InitWith(m, e, p, pp) ==
-  /\ hs = "init" /\ key = "-" /\ status = 0 /\ accept = NoAccept /\ mode = m /\ echo = e /\ pre = p /\ pushpay = pp
+  /\ hs = "init" /\ key = "-" /\ hsv = "-" /\ status = 0 /\ accept = NoAccept /\ mode = m /\ echo = e /\ pre = p /\ pushpay = pp
   /\ sock = "blocking" /\ cm = m /\ polled = FALSE /\ pushed = FALSE
   /\ wire = <<>> /\ cuts = <<>> /\ sentB = 0 /\ arrB = 0 /\ cst = "run"
   /\ ci = 0 /\ call = "idle" /\ frags = <<>> /\ last = "-" /\ srvOut = <<>> /\ delivered = <<>>
@@ -199,13 +206,18 @@ InitWith(m, e, p, pp) ==
 -----------------------------------------------------------------------------
 (* Handshake (app.rs: `Upgrade: websocket` -> call_websocket_handler -> handler.rs handshake).
    One step: request and answer.  Without a key the handler returns, the stream is dropped and the
-   client sees the connection close without a 101. *)
-Cli_Handshake(k) ==
+   client sees the connection close without a 101.  The property says what a 101 must carry and that
+   a request without a key is not upgraded; it does not say that a request whose header names or
+   tokens are spelled in another letter case (upgrade:, SEC-WEBSOCKET-KEY:, Upgrade: WebSocket, ...)
+   must be upgraded, so for those both outcomes are allowed - but a 101 always carries the right
+   accept value. *)
+Cli_Handshake(k, v) ==
   /\ hs = "init"
-  /\ key' = k
-  /\ IF k = NoKey
-     THEN hs' = "refused" /\ status' = 0 /\ accept' = NoAccept
-     ELSE hs' = "open" /\ status' = 101 /\ accept' = AcceptOf(k)
+  /\ key' = k /\ hsv' = v
+  /\ \/ /\ k # NoKey
+        /\ hs' = "open" /\ status' = 101 /\ accept' = AcceptOf(k)
+     \/ /\ k = NoKey \/ v # "canon"
+        /\ hs' = "refused" /\ status' = 0 /\ accept' = NoAccept
   /\ UNCHANGED <<mode, echo, pre, pushpay, cvars, arrB, svars>>
 
 (* Client.  A frame is started by writing its first piece (up to the first cut, or all of it). *)
@@ -394,7 +406,7 @@ TypeOK ==
 \* 101 with the right accept value iff a key was offered; nothing is written on a connection that was not upgraded
 Inv_Handshake ==
   /\ hs = "open"    => key # NoKey /\ status = 101 /\ accept = AcceptOf(key)
-  /\ hs = "refused" => key = NoKey /\ status # 101
+  /\ hs = "refused" => (key = NoKey \/ hsv # "canon") /\ status # 101
   /\ hs # "open"    => srvOut = <<>> /\ delivered = <<>>
 
 \* everything the server writes is a sequence of well-formed unmasked frames
